@@ -34,6 +34,9 @@ def run(res, tier, seed):
     if not quick:
         # the small-cache build enters the recursion from about 130 x 2750 / 750 x 750
         T["small"].run(REC_OPS, seed + 5, 40, 500, rec_bias=0.9)
+    # Tier B: the Four-Russians base case against its algorithm-faithful model (the model Properties_C03r.v is about)
+    from props import tierb
+    tierb.run(res, "C03", tier, seed)
 
 
 def replay(res, path):
